@@ -101,6 +101,26 @@ def run_op_table(prog, tier, repo):
                           f'{")" if ws else ""}: ' + '; '.join(problems))
         else:
             res.ok(key, wrapb.loc(), f'i32.{mn} <=> {"".join(sorted(ws))}a {js} b{")" if ws else ""}')
+    # sibling operators of one family are emitted through the same JS shape (they only differ in the operator symbol):
+    # e.g. the by-value string comparison `a[1] === b[1]` must exist for `!=` exactly as for `==`, since the wasm side
+    # routes both through the same string-equality routine
+    names = [v.name for v in binop.variants]
+    extra = emitter[1]
+    for family in (('EQ', 'NE'), ('LT', 'LE', 'GT', 'GE'), ('PLUS', 'MINUS', 'MUL', 'LAND', 'LOR', 'XOR', 'SHL', 'SHR', 'MOD')):
+        idx = [names.index(n) for n in family if n in names]
+        sigs = {names[i]: tuple(sorted(extra[i])) for i in idx}
+        ref = max(set(sigs.values()), key=lambda s_: list(sigs.values()).count(s_))
+        for n in sorted(sigs):
+            key = f'sibling-shape:{n}'
+            if sigs[n] == ref:
+                res.ok(key, wrapb.loc(), f'{n} is emitted through the same TypeScript shape as its siblings {family}')
+            else:
+                missing = sorted(set(ref) - set(sigs[n]))
+                added = sorted(set(sigs[n]) - set(ref))
+                res.violation(key, wrapb.loc(), f'{n} is emitted through a different TypeScript shape than its siblings {family} '
+                              f'(missing fragments {missing}, extra {added}) although WebAssembly lowers the whole family the same '
+                              f'way: e.g. a by-value string comparison that exists for `==` but not for `!=` compares object '
+                              f'identity in TypeScript and contents in WebAssembly')
     res.analysed['tables_from'] = [wbody.name, symb.name, wrapb.name]
     return [res]
 
@@ -147,4 +167,69 @@ def run_ts_splice(prog, tier, repo):
                               f'TypeScript, and `\\n` is two characters in the WASM data segment but a newline in the template '
                               f'literal')
     res.floor('non-constant pushes inside a template literal', n, 1)
+    return [res]
+
+
+def run_segment_units(prog, tier, repo):
+    """DATA-SEGMENT-UNITS (C04/C01): offsets and lengths of string constants in the wasm data segment are byte
+    quantities (the segment holds the UTF-8 bytes and the loader decodes byte-wise); a character count must never
+    flow into them."""
+    from ..callgraph import iter_operands_rvalue
+    res = RuleResult('DATA-SEGMENT-UNITS', 'C04: both back ends denote the same string constants - positions in the wasm data '
+                     'segment are counted in bytes, never in characters')
+    target = [a for a in prog.adts.values() if a.name == 'samlang_ast::wasm::GlobalGcString']
+    if len(target) != 1:
+        res.cannot_decide('wasm::GlobalGcString')
+        return [res]
+    target = target[0]
+    n = 0
+    for b in prog.bodies.values():
+        if b.crate != 'samlang_compiler':
+            continue
+        aggs = [(bi, st) for bi, bl in enumerate(b.blocks) if not bl.cleanup for st in bl.stmts
+                if st[0] == 'a' and st[2][0] == 'agg' and st[2][1][0] == 'adt' and st[2][1][1] == target.id]
+        if not aggs:
+            continue
+        # character-count taint inside this body
+        chars = set()
+        for bl in b.blocks:
+            t = bl.term
+            if t[0] == 'call' and not t[4].proj:
+                nm = callee(t)[1] or ''
+                if nm.endswith(('Iterator::count', '::count')) and t[3]:
+                    at = b.locals[t[3][0][1].local] if t[3][0][0] in ('c', 'm') else None
+                    if at is not None and ('Chars' in at.s or 'CharIndices' in at.s):
+                        chars.add(t[4].local)
+        changed = True
+        while changed:
+            changed = False
+            for bl in b.blocks:
+                for st in bl.stmts:
+                    if st[0] == 'a':
+                        if any(o[0] in ('c', 'm') and o[1].local in chars for o in iter_operands_rvalue(st[2])):
+                            if st[1].local not in chars:
+                                chars.add(st[1].local)
+                                changed = True
+                t = bl.term
+                if t[0] == 'call' and not t[4].proj and t[4].local not in chars:
+                    nm = (callee(t)[1] or '').split('::')[-1]
+                    if nm in ('wrapping_add', 'checked_add', 'saturating_add', 'max', 'min', 'unwrap', 'into', 'try_into', 'from') \
+                            and any(o[0] in ('c', 'm') and o[1].local in chars for o in t[3]):
+                        chars.add(t[4].local)
+                        changed = True
+        fields = [f.name for f in target.variants[0].fields]
+        for bi, st in aggs:
+            for fi, o in enumerate(st[2][2]):
+                if fields[fi] not in ('offset', 'length'):
+                    continue
+                n += 1
+                key = f'segment-units:{b.name}:{fields[fi]}'
+                if o[0] in ('c', 'm') and (o[1].local in chars or root_local(b, o[1].local)[0] in chars):
+                    res.violation(key, b.loc(st[3]), f'{b.name}: the `{fields[fi]}` of a string constant in the data segment is derived '
+                                  f'from a character count (str::chars().count()), but the segment stores UTF-8 bytes: every '
+                                  f'constant after a non-ASCII literal is read from the wrong position in WebAssembly while '
+                                  f'TypeScript is unaffected')
+                else:
+                    res.ok(key, b.loc(st[3]), f'{fields[fi]} is not derived from a character count')
+    res.floor('data-segment position operands', n, 2)
     return [res]
